@@ -427,6 +427,80 @@ def check_selection(ctx, rng, n):
     K.rmtree(root)
 
 
+def _path_glob_match(glob, rel):
+    """documented override-glob reading for simple globs: a glob with a '/' is matched against the path relative to the
+    working directory, component by component; a glob without '/' against the file name at any depth"""
+    import fnmatch
+    if "/" not in glob:
+        return fnmatch.fnmatchcase(rel.split("/")[-1], glob)
+    gp, rp = glob.split("/"), rel.split("/")
+    return len(gp) == len(rp) and all(fnmatch.fnmatchcase(r, g) for g, r in zip(gp, rp))
+
+
+def check_selection_roots(ctx, rng):
+    """--pre-glob with a directory component, the search root given as '.', a relative directory, an absolute directory, a
+    relative file, an absolute file: the glob is relative to the working directory whatever the root looks like"""
+    root = K.mktree("c18")
+    os.mkdir(os.path.join(root, "enc"))
+    os.chmod(os.path.join(root, "enc"), 0o755)
+    files = ["enc/x.r13", "enc/y.r13", "enc/z.txt", "top.r13"]
+    for nm in files:
+        with open(os.path.join(root, nm), "w") as f:
+            f.write("hit raw\n")
+        os.chmod(os.path.join(root, nm), 0o644)
+    with open(os.path.join(root, "pre.sh"), "w") as f:
+        f.write('#!/bin/sh\nprintf "hit pre\\n"\n')
+    os.chmod(os.path.join(root, "pre.sh"), 0o755)
+    globsets = [["enc/*.r13"], ["enc/*"], ["*.r13"], ["enc/*.r13", "!enc/y.r13"], ["!enc/*.txt"], ["top.r13"]]
+    roots = [["."], ["enc", "top.r13"], [root], [os.path.join(root, "enc")], ["enc/x.r13"],
+             [os.path.join(root, "enc", "x.r13")], [os.path.join(root, "enc", "x.r13"), os.path.join(root, "top.r13")]]
+    cases = [dict(globs=g, roots=r, threads=t) for g in globsets for r in roots for t in (1, 3)]
+    def run(c):
+        a = ["--color", "never", "-j", str(c["threads"]), "-H", "--no-ignore", "--sort", "path",
+             "--pre", os.path.join(root, "pre.sh")]
+        for g in c["globs"]:
+            a += ["--pre-glob", g]
+        return K.run_rg(a + ["-g", "!pre.sh", "-e", "hit"] + c["roots"], root)
+    res = K.pmap(run, cases)
+    for c, r in zip(cases, res):
+        ctx.note_case("selroot" + repr(c), True)
+        ctx.cov["selection_root_runs"] = ctx.cov.get("selection_root_runs", 0) + 1
+        got = {}
+        for line in r["out"].split(b"\n"):
+            if b":" in line:
+                pth, t = line.rsplit(b":", 1)
+                pth = pth.decode()
+                rel = os.path.relpath(pth, root) if os.path.isabs(pth) else os.path.normpath(pth)
+                got[rel] = {b"hit pre": 1, b"hit raw": 3}.get(t, 9)
+        bad = None
+        if r["err"] or r["status"] != 0:
+            bad = "unexpected status %d / diagnostics %r" % (r["status"], r["err"][:100])
+        for rel, routine in sorted(got.items()):
+            verdict = None
+            for g in c["globs"]:
+                neg = g.startswith("!")
+                if _path_glob_match(g[1:] if neg else g, rel):
+                    verdict = not neg
+            if verdict is None:
+                verdict = not any(not g.startswith("!") for g in c["globs"])
+            # the generated selection on these inputs
+            m = vlib.model(1802, [vlist(["0", "1", "0", vbool(not verdict), "0", "0"])])[0]
+            want = 1 if verdict else 3
+            if m != str(want):
+                bad = "generated select_strategy gives %s for glob_is_ignore=%s" % (m, not verdict)
+            elif routine != want:
+                bad = "%s was searched %s, but --pre-glob %s %s it" % (
+                    rel, "through --pre" if routine == 1 else "directly", " ".join(c["globs"]),
+                    "selects" if verdict else "does not select")
+        if not got:
+            bad = bad or "no output"
+        if bad:
+            ctx.violation("selection (--pre-glob relative to the working directory, root %s): %s" % (" ".join(c["roots"]), bad),
+                          dict(kind="selection-roots", globs=c["globs"], roots=c["roots"], threads=c["threads"],
+                               files=files, out=repr(r["out"]), err=repr(r["err"][:200])))
+    K.rmtree(root)
+
+
 def _glob_selects(globs, name):
     """independent reading of the documented --pre-glob semantics for these simple globs: the last matching glob
     decides; with at least one positive glob an unmatched file is not selected"""
@@ -608,6 +682,7 @@ def run(ctx):
     check_library(ctx, rng, ctx.count(120), big_path, big_bytes)
     check_pre(ctx, rng, ctx.count(120), big_path, big_bytes)
     check_selection(ctx, rng, ctx.count(40))
+    check_selection_roots(ctx, rng)
     check_decompress(ctx, rng, ctx.count(40))
     K.rmtree(root)
     K.report_drift(ctx, GEN_TARGETS, bool(ctx.violations))
